@@ -736,6 +736,20 @@ def desugar_for_loops(text, spec, where, log):
         if mode == 'rev_ref':
             # `for x in EXPR.iter().rev()`: an indexed loop from the last element down to the first
             m_ = re.search(r'\s*\.iter\(\)\s*\.rev\(\)$', expr)
+            mf_ = re.search(r'\s*\.iter\(\)$', expr)
+            if not m_ and mf_:
+                # the text iterates forwards: desugar it as the forward loop it is (the invariants
+                # written for the backward loop are then checked against the forward one)
+                expr = expr[:mf_.start()]
+                head = '{ let it_%s = &%s; let mut %s: usize = 0; while %s < it_%s.len() ' % (name, expr, name, name, name)
+                nl = text[kw_off:body].count('\n')
+                text = (text[:kw_off] + head + '\n' * nl + '{' + ' let %s = &it_%s[%s]; %s = %s + 1; ' % (pat, name, name, name, name)
+                        + text[body + 1:close + 1] + ' }' + text[close + 1:])
+                log.append(dict(rule='R9', where=where, matches=1,
+                                why='for loop #%d over `%s.iter()` desugared to an indexed while loop running forwards (position `%s`)' % (ordinal, expr, name)))
+                code = rsitems.lex_mask(text)
+                loops = rsitems.loops_in(text, 0, len(text), code)
+                continue
             if not m_:
                 raise ExtractError('%s: desugar_for: loop #%d is not over `.iter().rev()`' % (where, ordinal))
             expr = expr[:m_.start()]
